@@ -314,7 +314,10 @@ def check(pid, tier):
         return 2
     seed = int(os.environ.get("VERIF_SEED", "0") or 0)
     OUT = os.environ.get("VX_SCRATCH_OUT", ROOT)
-    unit_dir = os.path.join(BUILD, "units" if OUT == ROOT else "units-scratch", pid)
+    # VX_SCRATCH_ID (development only): separate scratch build directories, so that several scratch copies of
+    # the repository can be checked at the same time
+    sid = os.environ.get("VX_SCRATCH_ID", "")
+    unit_dir = os.path.join(BUILD, "units" if OUT == ROOT else "units-scratch" + ("-" + sid if sid else ""), pid)
     os.makedirs(os.path.join(OUT, "evidence"), exist_ok=True)
     os.makedirs(os.path.join(OUT, "replays"), exist_ok=True)
     for old in glob.glob(os.path.join(OUT, "replays", pid + "-*.json")):
@@ -386,6 +389,8 @@ def check(pid, tier):
             if conf.get("facts_failed"):
                 undecided.append("trusted layer: %d assumed fact(s) of specs/prelude.rs failed their conformance test: %s" % (conf["facts_failed"], ", ".join(conf.get("failed", [])[:5])))
             for c in r2["contracts"]:
+                if c.get("domain", "").startswith("NOT REPLAYED"):
+                    soft.append("bounded replay %s: %s" % (c["name"], c["domain"][:300]))
                 for fl in c["failures"]:
                     ident = "%s:%s" % (c["name"], fl.get("class", ""))
                     hit = next((k for k in kf.get("known", []) if k["id"] == ident), None)
